@@ -6,7 +6,7 @@ import Babylon.Exec.Inv4
 namespace Babylon.Exec
 open Babylon.Core
 
-macro "s_close" : tactic => `(tactic| (
+macro "s_close_A" : tactic => `(tactic| (
   (try simp only [balExited] at *)
   (try simp only [exec_proj, upd_same, Q.claim_fold, Q.bump_fold] at *)
   first
@@ -76,22 +76,21 @@ theorem Inv4.step_m1 (I : Inv1 c s) (J : Inv2 c s) (B : Inv2b s) (K : Inv3 c s) 
     have hit := (isTask_iff cl.item).mp (l4 k0 i0 cl hcell)
     obtain ⟨idx, hidx⟩ := hit
     clear hcell l4
-    cases ctx <;> simp only [hidx] at * <;> s_close
+    cases ctx <;> simp only [hidx] at * <;> s_close_A
   case wRecv i0 cl hpc hcell hfull =>
     have hc1 := Q.itemAt_eq _ _ _ hcell
     have hc2 := Q.stAt_eq _ _ _ hcell
     have hc3 : i0 < s.g.cells.length := Q.stAt_some_lt _ _ _ hc2
     rw [hfull] at hc2
     clear hcell l4
-    cases hx : cl.item <;> simp only [hx] at * <;> s_close
+    cases hx : cl.item <;> simp only [hx] at * <;> s_close_A
   case gPublish p k hpc hfree hst =>
     have hc3 : p < s.g.cells.length := Q.stAt_some_lt _ _ _ hst
-    clear l4; s_close
+    clear l4; s_close_A
   case sLd hpc =>
     skip
-    clear l4; s_close
-  all_goals (clear l4; try s_close)
-  all_goals (trace_state; sorry)
+    clear l4; s_close_A
+  all_goals (clear l4; try s_close_A)
 
 set_option maxHeartbeats 4000000 in
 theorem Inv4.step_m2 (I : Inv1 c s) (J : Inv2 c s) (B : Inv2b s) (K : Inv3 c s) (M : Inv4 c s) (h : StepCase c s t lb s') :
@@ -147,22 +146,21 @@ theorem Inv4.step_m2 (I : Inv1 c s) (J : Inv2 c s) (B : Inv2b s) (K : Inv3 c s) 
     have hit := (isTask_iff cl.item).mp (l4 k0 i0 cl hcell)
     obtain ⟨idx, hidx⟩ := hit
     clear hcell l4
-    cases ctx <;> simp only [hidx] at * <;> s_close
+    cases ctx <;> simp only [hidx] at * <;> s_close_A
   case wRecv i0 cl hpc hcell hfull =>
     have hc1 := Q.itemAt_eq _ _ _ hcell
     have hc2 := Q.stAt_eq _ _ _ hcell
     have hc3 : i0 < s.g.cells.length := Q.stAt_some_lt _ _ _ hc2
     rw [hfull] at hc2
     clear hcell l4
-    cases hx : cl.item <;> simp only [hx] at * <;> s_close
+    cases hx : cl.item <;> simp only [hx] at * <;> s_close_A
   case gPublish p k hpc hfree hst =>
     have hc3 : p < s.g.cells.length := Q.stAt_some_lt _ _ _ hst
-    clear l4; s_close
+    clear l4; s_close_A
   case sLd hpc =>
     skip
-    clear l4; s_close
-  all_goals (clear l4; try s_close)
-  all_goals (trace_state; sorry)
+    clear l4; s_close_A
+  all_goals (clear l4; try s_close_A)
 
 set_option maxHeartbeats 4000000 in
 theorem Inv4.step_m4 (I : Inv1 c s) (J : Inv2 c s) (B : Inv2b s) (K : Inv3 c s) (M : Inv4 c s) (h : StepCase c s t lb s') :
@@ -217,22 +215,21 @@ theorem Inv4.step_m4 (I : Inv1 c s) (J : Inv2 c s) (B : Inv2b s) (K : Inv3 c s) 
     have hit := (isTask_iff cl.item).mp (l4 k0 i0 cl hcell)
     obtain ⟨idx, hidx⟩ := hit
     clear hcell l4
-    cases ctx <;> simp only [hidx] at * <;> s_close
+    cases ctx <;> simp only [hidx] at * <;> s_close_A
   case wRecv i0 cl hpc hcell hfull =>
     have hc1 := Q.itemAt_eq _ _ _ hcell
     have hc2 := Q.stAt_eq _ _ _ hcell
     have hc3 : i0 < s.g.cells.length := Q.stAt_some_lt _ _ _ hc2
     rw [hfull] at hc2
     clear hcell l4
-    cases hx : cl.item <;> simp only [hx] at * <;> s_close
+    cases hx : cl.item <;> simp only [hx] at * <;> s_close_A
   case gPublish p k hpc hfree hst =>
     have hc3 : p < s.g.cells.length := Q.stAt_some_lt _ _ _ hst
-    clear l4; s_close
+    clear l4; s_close_A
   case sLd hpc =>
     skip
-    clear l4; s_close
-  all_goals (clear l4; try s_close)
-  all_goals (trace_state; sorry)
+    clear l4; s_close_A
+  all_goals (clear l4; try s_close_A)
 
 end
 end Babylon.Exec
